@@ -314,7 +314,7 @@ func TestVerifC44(t *testing.T) {
 			case "hdr-full":
 				// 3-byte blobs: one of the two packers reaches the header entry limit (409 199
 				// entries, 14.3 MB) before the size target and must be uploaded then
-				nb, bl = 900_000, 3
+				nb, bl = 1_000_000, 3
 			case "hdr-merge":
 				// two open packers that together hold more entries than a header can list
 				// (> 453 437 plain entries) but fewer bytes than the pack size: 458 000 four-byte
@@ -714,7 +714,7 @@ func c44HeaderLimitUnit(t *testing.T, rec *kit.Rec) {
 		packSz uint
 	}{
 		{"merge-458k-4B", 458_000, 36, 16 << 20},    // 2 packers x ~229k entries, 16.5 MB together
-		{"full-900k-3B", 900_000, 35, 16 << 20},     // one packer reaches the entry limit first
+		{"full-1M-3B", 1_000_000, 35, 16 << 20},     // ~500k entries per packer: the entry limit (409 199) comes before the size target (479k entries)
 		{"merge-430k-100B-64MiB", 430_000, 132, 64 << 20},
 	} {
 		var queued, failed, failedBeforeFlush int
